@@ -20,18 +20,18 @@ CLAIMS = {
          "the extracted formulas); payload fits the 16-bit length field (CD5); every writing DataFile method advances the logical size on success (CD7); "
          "one Write call per append (WR1); writer emits exactly the declared chunk types, both readers stop on the same set and validate the "
          "Full/First-then-Middle/Last sequence (CT); pad test per record and tail test after every record end (CD3b/c); clean EOF, EOF by size only, decode "
-         "window (BD2, EOF1, BD4). The round trip over all (offset,length) pairs is arithmetic and is not decided (no solver).", "3/C11, 2.6"),
+         "window (BD2, EOF1, BD4); block offsets are multiplied in 64 bits (WD1). The round trip over all (offset,length) pairs is arithmetic and is not decided (no solver).", "3/C11, 2.6"),
  "C12": ("dominating-guard facts (bounds, sign), CRC-gating dominance, who-may-call, per-property error-discipline (PS8)",
          "Decides: in the pre-checksum decoder every access to the input is dominated by a length guard and the stored-length-derived bound cannot wrap "
          "(BD1); unsigned conversion of fileSize-offset is guarded inside the loop in both readers (BD2); payload leaves the decoder only on the "
          "checksum-equal edge, the checksum covers input[4:end], ReadWriter.Read is invoked only by the chunk readers which decode what they read (BD3); "
-         "the decoder sees only the bytes just read (BD4); errors of every call that reaches a read are propagated, never swallowed (PS8). Value equality "
+         "the decoder sees only the bytes just read (BD4); errors of every call that reaches a read are propagated, never swallowed (PS8); content never means end of log - no decoder returns io.EOF under a condition computed from its input, scans end only on io.EOF (EOF1, EOF2); chunk-type sequence validated (CT). Value equality "
          "under corruption and content that passes CRC-32 are not decided.", "3/C12, 2.7"),
  "C13": ("path-sensitive typestate (clean/dirty) over SSA CFGs with callee summaries, error facts and option specialisation",
          "For every path of Put/Delete (SyncStrategy=Always and =Threshold), Batch.Commit (Sync batch), DB.Sync, DB.Close and each ReadWriter "
          "implementation's Sync/Close: every success return is reached only after the written bytes passed an OS durability primitive "
          "((*os.File).Sync / mmap Flush), the threshold counter is increased by every write, reset only after a flush and compared with "
-         "BytesPerSync before returning, and the active-file field is never replaced while dirty. Exhaustive over paths and implementations; "
+         "BytesPerSync before returning, and the active-file field is never replaced while dirty; the option values these path rules specialise on are immutable after construction (CFG1). Exhaustive over paths and implementations; "
          "this is the whole mechanism of the property except the OS contract.", "3/C13, 2.3"),
  "C01": ("value-provenance (def-use over SSA through extracts, phis, local cells, closure parameters) + path typestate",
          "Decides the structural mechanism 'append then point the index at that position': at every ShardedIndex.Put of the engine (Put, batch flush, "
@@ -112,7 +112,7 @@ CLAIMS = {
  "C14": ("sibling-agreement rules: per-implementation retention verdicts, dispatch exhaustiveness, back-end durability parity, configuration taint",
          "THIN. Relational over pairs of runs - not decided. Decided sibling-agreement conditions: all index implementations copy the key (RT3); both "
          "dispatchers cover every declared constant (TB3); both I/O back-ends flush in Sync and before close (PS2); snapshot ownership parity (TB5, TB2c); "
-         "IndexType/ShardNum/FileIOType flow only into constructors, no other branch tests them (CF1); heap order independent of shard count (HP1); recovery "
+         "IndexType/ShardNum/FileIOType flow only into constructors, no other branch tests them (CF1); options of an open DB / live batch are never written (CFG1); heap order independent of shard count (HP1); recovery "
          "independent of how a batch was split across files (VF3e).", "3/C14"),
  "C18": ("value provenance of hint entries + typestate (one hint per rewrite) + codec agreement + adoption naming",
          "Decides: the hinted position is result #0 of the rewriting call of the same record and the key is that record's Key, written to the file opened with "
@@ -122,7 +122,7 @@ CLAIMS = {
  "C19": ("lock-protocol pairing in the datatype layer, metadata codec agreement, type-tag table, batch tagging",
          "THIN. Reply equality with a reference model is NOT decided. Decided: on every path of every DataTypeService method each NewBatch is followed by "
          "Commit, with no database call that takes the lock in between (LK5); metadata encoder/decoder agree incl. the List-only tail (CD1); each command family "
-         "passes its own tag to the lookup, which returns the wrong-type error on the mismatch edge (TB4); structure updates are batches whose records and seal "
+         "passes its own tag to the lookup, which returns the wrong-type error on the mismatch edge (TB4); the four list sites follow one half-open window convention and both cursors start equal (LIST1); structure updates are batches whose records and seal "
          "are tagged and replayed under their seal (VF3).", "3/C19"),
  "C20": ("MMap size-reset typestate, backup argument/lock table, copy-completeness rule, error discipline of the copy",
          "Decides: an MMap method truncates to the logical size only when unmapped and invalidates the mapping bound (TB6); every MMap method copes with the "
